@@ -120,9 +120,33 @@ func RunFunction(P *Program, name string, cfg *Config, so SolveOpts) *FuncReport
 		go func() {
 			defer wg.Done()
 			for j := range ch {
-				prob := j.o.Problem(pre, true)
 				fname := fmt.Sprintf("%s__p%d", j.o.Name, j.idx)
-				r := Solve(filepath.Join(so.OutDir, mangle(name)), fname, prob, so.TimeoutMs, so.Agree)
+				dir := filepath.Join(so.OutDir, mangle(name))
+				// stage A: without quantified assumptions (fast; unsat carries over)
+				var r SolveResult
+				qf, dropped := j.o.ProblemQF(pre, true)
+				stageA := SolveResult{Status: "unknown"}
+				if dropped {
+					ta := so.TimeoutMs / 4
+					if ta < 2000 {
+						ta = 2000
+					}
+					stageA = Solve(dir, fname+"__qf", qf, ta, false)
+				}
+				if stageA.Status == "unsat" {
+					r = stageA
+					r.Backend += "/qf"
+				} else {
+					r = Solve(dir, fname, j.o.Problem(pre, true), so.TimeoutMs, so.Agree)
+					r.Millis += stageA.Millis
+					if r.Status == "unknown" && stageA.Status == "sat" {
+						// candidate counterexample: satisfies everything except possibly the quantified
+						// assumptions the solver could not use
+						r.Status = "sat"
+						r.Backend = stageA.Backend + "/qf-candidate"
+						r.Model = "; model of the problem WITHOUT its quantified assumptions (candidate)\n" + stageA.Model
+					}
+				}
 				mu.Lock()
 				res := results[j.o.Name]
 				res.Millis += r.Millis
